@@ -457,7 +457,7 @@ func RefactorSkeleton(seed int64, cfg *Config) *Program {
 			{Callee: "USE", Alias: "U2", Disabled: ref("MKR", ext, "b"), Binds: []Binding{{Id: "x", Exp: ref("MKR", base, "a")}}},
 		},
 		Ret:    []Binding{{Id: base, Exp: ref("MKR", base)}, {Id: ext, Exp: ref("MKR", ext)}, {Id: "y", Exp: ref("U1", "y")}},
-		Retain: []*Exp{ref("MKR", ext, "f")}}
+		Retain: []*Exp{ref("MKR", base, "f"), ref("MKR", ext, "f"), ref("MKR", "n")}}
 	top := &Pipeline{Name: "TOP", Outs: []Param{{Name: "y", Type: TInt}, {Name: "a", Type: TInt}, {Name: "f", Type: TFile}},
 		Calls: []*Call{
 			{Callee: "INNER", Binds: []Binding{{Id: inb, Exp: lit(int64(g.r.Intn(100)))}, {Id: ine, Exp: lit(int64(g.r.Intn(100)))}}},
